@@ -85,6 +85,11 @@ structure Case where
   excBase      : Bool
   /-- running interpreter ≥ 3.10 (`__match_args__` support) -/
   py310        : Bool
+  /-- HISTORY of the decorator object: the bodies (bound names) of the classes the very same decorator object
+      (`deco = attr.s(...)`, `deco = define(...)`) was applied to before this class.  The model never reads it:
+      the decision table is a function of the class alone (`C14_history_irrelevant`); the harness really applies
+      one decorator object to those classes first. -/
+  history      : List (List String) := []
   deriving DecidableEq, Repr, FromJson, ToJson, Inhabited
 
 /-! ### Observations -/
